@@ -1,5 +1,5 @@
-(* Whole-quota stage and remainder stage of QuotaDistributor / LargestRemainder
-   (Model/QuotaDistributor.v) on the domain where the cap branch is not entered. *)
+(* Whole-quota stage (cut at the caps) and remainder stage of QuotaDistributor / LargestRemainder
+   (Model/QuotaDistributor.v). *)
 From Coq Require Import ZArith QArith Qround List Bool Lia Permutation.
 From VL Require Import Prelude.PyDict Model.GetNBest Model.Quota Model.QuotaDistributor
      Proofs.Dict_proofs Proofs.GetNBest_proofs Proofs.QOrd.
@@ -37,57 +37,73 @@ Section QDP.
     forall c v, In (c, v) votes -> fulfills v q = true ->
       0 < py_trunc (v / q)%Q - dget_or prev c 0 -> py_trunc (v / q)%Q <= dget_or caps c n.
 
-  Lemma scan_no_overshoot votes q n prev caps : forall sel nov ovc,
-    no_overshoot votes q n prev caps -> NoDup (map fst votes) ->
-    (forall c, In c (map fst votes) -> dget_or sel c 0 = 0) ->
-    exists sel', scan accept_equal votes q n prev caps (sel, nov, ovc) = (sel', nov, ovc) /\
-      (forall c v, In (c, v) votes -> dget_or sel' c 0 = whole_add q prev c v) /\
-      (forall c, ~ In c (map fst votes) -> dget_or sel' c 0 = dget_or sel c 0) /\
-      (forall c s, In (c, s) sel' -> In (c, s) sel \/ (0 < s /\ exists v, In (c, v) votes)).
+  (* seats a party gets from whole quotas cut at its cap: min(int(v/q), cap) - prev when positive *)
+  Definition cap_add (q : Q) (prev caps : list (C * Z)) (c : C) (v : Q) : Z :=
+    if fulfills v q then
+      let add := cap_whole caps c (py_trunc (v / q)%Q) - dget_or prev c 0 in
+      if 0 <? add then add else 0
+    else 0.
+
+  Lemma cap_add_nonneg q prev caps c v : 0 <= cap_add q prev caps c v.
   Proof.
-    induction votes as [|[c v] t IH]; intros sel nov ovc Hno Hnd Hz; simpl.
-    - exists sel. split; [reflexivity|]. split; [intros ? ? []|]. split; [reflexivity|]. intros; left; assumption.
+    unfold cap_add. destruct (fulfills v q); [|lia].
+    destruct (0 <? _) eqn:E; [apply Z.ltb_lt in E; lia|lia].
+  Qed.
+
+  (* where no whole-quota count exceeds a cap the cap changes nothing (the default cap n of the pinned tree included) *)
+  Lemma cap_add_no_overshoot votes q n prev caps c v :
+    no_overshoot votes q n prev caps -> In (c, v) votes -> cap_add q prev caps c v = whole_add q prev c v.
+  Proof.
+    intros Hno Hin. unfold cap_add, whole_add, cap_whole. destruct (fulfills v q) eqn:Ef; [|reflexivity].
+    destruct (dget caps c) as [m|] eqn:Ec; [|reflexivity].
+    destruct (0 <? py_trunc (v / q) - dget_or prev c 0) eqn:Ea.
+    - apply Z.ltb_lt in Ea. specialize (Hno c v Hin Ef Ea). unfold dget_or in Hno. rewrite Ec in Hno.
+      rewrite Z.min_l by exact Hno. apply Z.ltb_lt in Ea. rewrite Ea. reflexivity.
+    - apply Z.ltb_ge in Ea. destruct (0 <? Z.min (py_trunc (v / q)) m - dget_or prev c 0) eqn:Eb; [|reflexivity].
+      apply Z.ltb_lt in Eb. lia.
+  Qed.
+
+  Lemma in_dset_inv (sel : list (C * Z)) c x c' s :
+    In (c', s) (dset sel c x) -> In (c', s) sel \/ (c' = c /\ s = x).
+  Proof.
+    induction sel as [|[k0 v0] sel IHs]; simpl; intros Hin.
+    - destruct Hin as [H|[]]. injection H as <- <-. right. split; reflexivity.
+    - destruct (ceqb c k0) eqn:E.
+      + apply ceqb_eq in E. subst k0. destruct Hin as [H|H].
+        * injection H as <- <-. right. split; reflexivity.
+        * left. right. exact H.
+      + destruct Hin as [H|H]; [left; left; exact H|].
+        destruct (IHs H) as [H1|H1]; [left; right; exact H1|right; exact H1].
+  Qed.
+
+  (* the loop over the votes, for every input with distinct parties: each party holds cap_add seats *)
+  Lemma scan_spec votes q prev caps : forall sel,
+    NoDup (map fst votes) ->
+    (forall c, In c (map fst votes) -> dget_or sel c 0 = 0) ->
+    (forall c v, In (c, v) votes -> dget_or (scan accept_equal votes q prev caps sel) c 0 = cap_add q prev caps c v) /\
+    (forall c, ~ In c (map fst votes) -> dget_or (scan accept_equal votes q prev caps sel) c 0 = dget_or sel c 0) /\
+    (forall c s, In (c, s) (scan accept_equal votes q prev caps sel) -> In (c, s) sel \/ (0 < s /\ exists v, In (c, v) votes)).
+  Proof.
+    induction votes as [|[c v] t IH]; intros sel Hnd Hz; cbn [scan].
+    - split; [intros ? ? []|]. split; [reflexivity|]. intros; left; assumption.
     - inversion Hnd as [|? ? Hc Hnd']; subst.
-      assert (Hno' : no_overshoot t q n prev caps).
-      { intros c' v' Hin. apply Hno. right. exact Hin. }
-      set (add := py_trunc (v / q)%Q - dget_or prev c 0).
-      assert (Hstep : exists sel1,
-        (if fulfills v q then
-           if 0 <? add then
-             if dget_or caps c n <? add + dget_or prev c 0
-             then (dset sel c (add - (add + dget_or prev c 0)), nov + (add + dget_or prev c 0), ovc ++ [c])
-             else (dset sel c add, nov, ovc)
-           else (sel, nov, ovc)
-         else (sel, nov, ovc)) = (sel1, nov, ovc) /\
-        dget_or sel1 c 0 = whole_add q prev c v /\
+      set (add := cap_whole caps c (py_trunc (v / q)%Q) - dget_or prev c 0).
+      set (sel1 := if fulfills v q then if 0 <? add then dset sel c add else sel else sel).
+      assert (Hstep : dget_or sel1 c 0 = cap_add q prev caps c v /\
         (forall c', c' <> c -> dget_or sel1 c' 0 = dget_or sel c' 0) /\
         (forall c' s, In (c', s) sel1 -> In (c', s) sel \/ (0 < s /\ c' = c))).
-      { unfold whole_add. fold add. destruct (fulfills v q) eqn:Ef.
+      { unfold sel1, cap_add. fold add. destruct (fulfills v q) eqn:Ef.
         - destruct (0 <? add) eqn:Ea.
-          + assert (Hcap : dget_or caps c n <? add + dget_or prev c 0 = false).
-            { apply Z.ltb_ge. apply Z.ltb_lt in Ea. specialize (Hno c v (or_introl eq_refl) Ef Ea). unfold add. lia. }
-            rewrite Hcap. exists (dset sel c add). split; [reflexivity|].
-            split; [rewrite dget_or_dset, ceqb_refl; reflexivity|].
-            split.
+          + split; [rewrite dget_or_dset, ceqb_refl; reflexivity|]. split.
             * intros c' Hne. rewrite dget_or_dset. apply ceqb_neq in Hne. rewrite Hne. reflexivity.
-            * intros c' s Hin. apply Z.ltb_lt in Ea. clear - Hin Ea.
-              induction sel as [|[k0 v0] sel IHs]; simpl in Hin.
-              -- destruct Hin as [H|[]]. injection H as <- <-. right. split; [exact Ea|reflexivity].
-              -- destruct (ceqb c k0) eqn:E.
-                 ++ apply ceqb_eq in E. subst k0. destruct Hin as [H|H].
-                    ** injection H as <- <-. right. split; [exact Ea|reflexivity].
-                    ** left. right. exact H.
-                 ++ destruct Hin as [H|H]; [left; left; exact H|].
-                    destruct (IHs H) as [H1|H1]; [left; right; exact H1|right; exact H1].
-          + exists sel. split; [reflexivity|]. split; [apply Hz; left; reflexivity|].
-            split; [reflexivity|]. intros; left; assumption.
-        - exists sel. split; [reflexivity|]. split; [apply Hz; left; reflexivity|].
-          split; [reflexivity|]. intros; left; assumption. }
-      destruct Hstep as (sel1 & Heq & Hc1 & Hother & Hin1).
-      rewrite Heq.
-      destruct (IH sel1 nov ovc Hno' Hnd') as (sel' & Hs & Hv & Hn & Hin').
+            * intros c' s Hin. apply Z.ltb_lt in Ea. destruct (in_dset_inv _ _ _ _ _ Hin) as [H|[-> ->]]; [left; exact H|].
+              right. split; [exact Ea|reflexivity].
+          + split; [apply Hz; left; reflexivity|]. split; [reflexivity|]. intros; left; assumption.
+        - split; [apply Hz; left; reflexivity|]. split; [reflexivity|]. intros; left; assumption. }
+      destruct Hstep as (Hc1 & Hother & Hin1).
+      destruct (IH sel1 Hnd') as (Hv & Hn & Hin').
       { intros c' Hc'. rewrite Hother; [apply Hz; right; exact Hc'|]. intros ->. exact (Hc Hc'). }
-      exists sel'. split; [exact Hs|]. split; [|split].
+      split; [|split].
       + intros c' v' [H|H].
         * injection H as <- <-. rewrite Hn; [exact Hc1|exact Hc].
         * apply Hv. exact H.
@@ -100,6 +116,39 @@ Section QDP.
   Qed.
 
   Definition plain (sel : list (C * Z)) : list (key * Z) := map (fun kv => (K (fst kv), snd kv)) sel.
+
+  (* the whole-quota stage and the three over-award policies, on the domain
+     where no party's whole quotas exceed its cap *)
+  (* the whole-quota stage cut at the caps and the three over-award policies, for every input with a quota
+     other than zero and distinct parties *)
+  Theorem qd_capped_quotas votes n prev caps :
+    let q := quota (qsumv votes) n in
+    ~ (q == 0)%Q -> NoDup (map fst votes) ->
+    exists sel,
+      (forall c v, In (c, v) votes -> dget_or sel c 0 = cap_add q prev caps c v) /\
+      (forall c, ~ In c (map fst votes) -> dget_or sel c 0 = 0) /\
+      (forall c s, In (c, s) sel -> 0 < s /\ In c (map fst votes)) /\
+      qd_evaluate quota accept_equal pol votes n prev caps =
+        (if n <? zsumv sel + zsumv prev then
+           match pol with
+           | PIgnore => QD_ok (plain sel)
+           | PError => QD_vse
+           | PSubtract => subtract (Z.to_nat (zsumv sel + zsumv prev - n)) votes q prev sel
+                                   (zsumv sel + zsumv prev - n)
+           end
+         else QD_ok (plain sel)).
+  Proof.
+    intros q Hq Hnd. unfold qd_evaluate. fold q.
+    assert (Qeq_bool q 0 = false) as Hq0.
+    { apply not_true_iff_false. intros H. apply Hq. apply Qeq_bool_iff. exact H. }
+    rewrite Hq0. cbn [andb].
+    destruct (scan_spec votes q prev caps [] Hnd) as (Hv & Hn & Hin).
+    { intros; reflexivity. }
+    exists (scan accept_equal votes q prev caps []). split; [exact Hv|]. split; [exact Hn|]. split.
+    - intros c s H. destruct (Hin c s H) as [[]|[H0 (v & Hv')]]. split; [exact H0|].
+      apply in_map_iff. exists (c, v). split; [reflexivity|exact Hv'].
+    - reflexivity.
+  Qed.
 
   (* the whole-quota stage and the three over-award policies, on the domain
      where no party's whole quotas exceed its cap *)
@@ -120,16 +169,10 @@ Section QDP.
            end
          else QD_ok (plain sel)).
   Proof.
-    intros q Hq Hnd Hno. unfold qd_evaluate. simpl. fold q.
-    assert (Qeq_bool q 0 = false) as Hq0.
-    { apply not_true_iff_false. intros H. apply Hq. apply Qeq_bool_iff. exact H. }
-    rewrite Hq0. simpl.
-    destruct (scan_no_overshoot votes q n prev caps [] 0 [] Hno Hnd) as (sel & Hs & Hv & Hn & Hin).
-    { intros; reflexivity. }
-    rewrite Hs. simpl.
-    exists sel. split; [exact Hv|]. split; [exact Hn|]. split.
-    - intros c s H. destruct (Hin c s H) as [[]|[H0 _]]. exact H0.
-    - unfold add_dict. simpl. reflexivity.
+    intros q Hq Hnd Hno.
+    destruct (qd_capped_quotas votes n prev caps Hq Hnd) as (sel & Hv & Hn & Hin & He). fold q in Hv, He.
+    exists sel. split; [|split; [exact Hn|split; [intros c s H; apply (Hin c s H)|exact He]]].
+    intros c v Hcv. rewrite (Hv c v Hcv). apply (cap_add_no_overshoot votes q n prev caps c v Hno Hcv).
   Qed.
 
   Lemma plain_no_tie sel :
@@ -154,7 +197,7 @@ Section QDP.
   Theorem lr_structure votes n prev caps sel :
     let q := quota (qsumv votes) n in
     ~ (q == 0)%Q ->
-    qd_evaluate quota accept_equal pol votes n prev [] = QD_ok (plain sel) ->
+    qd_evaluate quota accept_equal pol votes n prev caps = QD_ok (plain sel) ->
     let gained := add_dict sel prev in
     let nrem := n - zsumv gained in
     lr_evaluate quota accept_equal pol votes n prev caps =
